@@ -327,4 +327,23 @@ def total (s : Store) : Option Int := (splitAcc s []).map fun r => r.1 + r.2.1 +
 /-- `Tree.Iterator(nil, nil)` decoded -/
 def iterate (s : Store) : List (Key × Int) := s.leaves
 
+/-- the KVStore iterator over the leaf level, `[nodeKey(0, lo), hiBytes)`: seek to the first key `≥ lo`, then
+scan while the key is below the upper bound.  All leaf keys share the prefix `"node/" ++ BE16(0)`, so the byte
+comparison of the store keys is the comparison of the tree keys; `hi = none` stands for
+`PrefixEndBytes(nodeKey(0, nil))`, the end of the level. -/
+def scan (lo : Key) (hi : Option Key) (l : List (Key × Int)) : List (Key × Int) :=
+  (l.dropWhile (fun kv => decide (kv.1 < lo))).takeWhile
+    (fun kv => match hi with
+      | none => true
+      | some h => decide (kv.1 < h))
+
+/-- upper bound of `ptrIterator` / `ptrReverseIterator`: the Go code tests `end != nil`, so the empty NON-nil
+slice is the (exclusive) bound "empty key" and selects nothing. -/
+def endBound (e : Ptr) : Option Key := if e.isNil && e.key = [] then none else some e.key
+
+/-- `Tree.Iterator(begin, end)` decoded (`begin` nil or empty: from the first leaf). -/
+def iterRange (s : Store) (b e : Ptr) : List (Key × Int) := scan b.key (endBound e) s.leaves
+/-- `Tree.ReverseIterator(begin, end)` decoded: the same range, descending. -/
+def iterRangeRev (s : Store) (b e : Ptr) : List (Key × Int) := (iterRange s b e).reverse
+
 end OsmoVerif.SumTree
